@@ -194,11 +194,13 @@ def project(events: list, kills: dict | None = None) -> Projection:
                     out = dict(base, ev=ev, obf=bool(e.get("obfuscate")), key=e.get("key", ""))
                     P.keys.setdefault((t, p), e.get("key", ""))
                 elif ev == "pkgcache-get":
-                    out = dict(base, ev=ev, hit=bool(e.get("hit")), key=e.get("key", ""))
-                    P.keys.setdefault((t, p), e.get("key", ""))
+                    ident = e.get("aid") or e.get("key", "")     # identity of (configuration, source): the GarbleActionID
+                    out = dict(base, ev=ev, hit=bool(e.get("hit")), key=ident)
+                    P.keys.setdefault((t, p), ident)
                 elif ev in ("pkgcache-dep", "pkgcache-put"):
-                    out = dict(base, ev=ev, q=e.get("pkg", ""), key=e.get("key", ""))
-                    P.keys.setdefault((t, e.get("pkg", "")), e.get("key", ""))
+                    ident = e.get("aid") or e.get("key", "")
+                    out = dict(base, ev=ev, q=e.get("pkg", ""), key=ident)
+                    P.keys.setdefault((t, e.get("pkg", "")), ident)
                     if e.get("pkg", "") not in P.pkgs:
                         P.pkgs.append(e.get("pkg", ""))
                 elif ev == "pkgcache-dep-hit":
